@@ -2,6 +2,7 @@ import Sonic.Proofs.SerializeTop
 import Sonic.Proofs.SerializeQuoteDecode
 import Sonic.Proofs.SerializeNumber
 import Sonic.Proofs.SerializeParse
+import Sonic.Proofs.FtoaFacts
 
 /-!
 # C06 — Serialize output is valid JSON that parses back to an equal document
@@ -28,7 +29,9 @@ Objects of the statements
   (`strict = false`: the allocated size `SONIC_ALIGN(cap_)`; `strict = true`: `cap_` itself, which is smaller) and
   the double printer.  `CfgOK cfg`: `0 < W ≤ 32` and the size facts `FtoaSize` about the printer.
 
-Named hypotheses about `F64toa` (proved for the literal model of `F64toa` in C07), `Proofs.Serialize`:
+Named hypotheses about `F64toa`, `Proofs.Serialize` — DISCHARGED for the literal model `ftoaModel` of `F64toa` by
+`C06_ftoaModel_facts` (from C07's theorems and the C07↔C04 reader equivalence); the `…_model` theorems at the end
+of the file are the unconditional statements:
 * `FtoaSize F`  : a finite pattern gives a text of 1..25 bytes and stores at most 32 bytes from `End()`; a non-finite
                   pattern gives length 0 (and stays within those 32 bytes);
 * `FtoaFacts F` : `FtoaSize F` + the text of a finite pattern is read back by `Spec.Number.scanNumber` as exactly
@@ -327,11 +330,90 @@ theorem C06_ftoaModel_nonfinite (bits : Nat) (h : finiteBits bits = false) :
   have h' : bits / 2 ^ 52 % 2 ^ 11 = 2047 := by simpa [finiteBits] using h
   simp [ftoaModel, Ftoa.f64toa, h', Itoa.slice]
 
-/-- what remains to be supplied for the literal model -/
+/-- `FtoaSize` from its finite half (kept for reference; the finite half is supplied by `C06_ftoaModel_facts` below) -/
 theorem C06_ftoaModel_size
     (hfin : ∀ bits, bits < 2 ^ 64 → finiteBits bits = true →
       ∃ o, ftoaModel bits = some o ∧ 1 ≤ o.text.length ∧ o.text.length ≤ 25 ∧ o.ext ≤ 32) :
     FtoaSize ftoaModel :=
   ⟨hfin, fun bits _ h => ⟨⟨[], 0⟩, C06_ftoaModel_nonfinite bits h, rfl, by simp⟩⟩
+
+/-- **`FtoaFacts` holds for the literal `F64toa` model**: for every 64-bit pattern the model is defined; a finite
+pattern prints 1..25 bytes and stores at most 32 bytes, a non-finite one prints nothing; and the text of every finite
+pattern is read back by the exact reference reader `Spec.Number.scanNumber` (the oracle of C04) as one number token
+of the full length, of kind `real`, with exactly the same 64 bits (so `-0.0`, subnormals, `DBL_MAX`, integers
+printed as `ddd.0` all come back bit-identical).
+Ingredients: `C07_output`/`C07_zero`/`C07_integer_path`/`C07_decimal_path` (the text and what it denotes),
+`C07_schubfach` (the certificate holds on the general path), `C07_chk_reparse_signed` and
+`C07_roundTrips_iff_rne_signed` (rounding interval = preimage under `Rne.round`), the fast-path integer lies in its
+own interval (`Proofs.FtoaFacts.fast_inInterval`), and the reader equivalence `Proofs.FtoaFacts.scan_of_parseDec`
+(`parseDecText t = some (neg, sig, exp)` + fraction-or-exponent ⇒ `scanNumber t 0` is the `real` token of value
+`Rne.round neg sig exp`; trailing zeros of the mantissa do not matter by `Proofs.Rne.round_scale`). -/
+theorem C06_ftoaModel_facts : FtoaFacts ftoaModel := Sonic.Proofs.FtoaFacts.ftoaModel_facts
+
+/-- the standing assumptions hold for every configuration that uses the literal `F64toa` model -/
+theorem C06_cfgOK_model (cfg : Cfg) (hw : 0 < cfg.W) (hw32 : cfg.W ≤ 32) (hf : cfg.ftoa = ftoaModel) : CfgOK cfg :=
+  ⟨hw, hw32, by rw [hf]; exact C06_ftoaModel_facts.toFtoaSize⟩
+
+/-- `C06_render_valid` without hypotheses on the printer -/
+theorem C06_render_valid_model (v : JVal) (hwf : WF v = true) (hfin : AllFinite v = true) :
+    ∃ bytes, render (ftoaText ftoaModel) v = some bytes ∧ Json.accepts bytes = true :=
+  C06_render_valid ftoaModel C06_ftoaModel_facts v hwf hfin
+
+/-- `C06_roundtrip` without hypotheses on the printer: every finite well-formed document, doubles included,
+renders to a text that parses back to exactly the document -/
+theorem C06_roundtrip_model (v : JVal) (hwf : WF v = true) (hfin : AllFinite v = true) :
+    ∃ bytes, render (ftoaText ftoaModel) v = some bytes ∧ Json.parse bytes = .ok v :=
+  C06_roundtrip ftoaModel C06_ftoaModel_facts v hwf hfin
+
+/-- `C06_reserialize` without hypotheses on the printer -/
+theorem C06_reserialize_model (v : JVal) (hwf : WF v = true) (hfin : AllFinite v = true)
+    (bytes : List Nat) (hb : render (ftoaText ftoaModel) v = some bytes) (v' : JVal)
+    (hp : Json.parse bytes = .ok v') : render (ftoaText ftoaModel) v' = some bytes :=
+  C06_reserialize ftoaModel C06_ftoaModel_facts v hwf hfin bytes hb v' hp
+
+/-- **End to end, unconditional**: with the literal models of `SerializeImpl`, `Quote`, `U64toa`, `I64toa` and
+`F64toa`, for every vector width `0 < W ≤ 32`, both tails, both write limits: serialising a finite well-formed
+document (any doubles) into any buffer state, any number of times, succeeds; the text is accepted by the independent
+recogniser and parses back to the same document; `Dump()` agrees; and serialising the re-parsed document gives the
+identical bytes. -/
+theorem C06_end_to_end_model (cfg : Cfg) (hw : 0 < cfg.W) (hw32 : cfg.W ≤ 32) (hf : cfg.ftoa = ftoaModel)
+    (v : JVal) (hwf : WF v = true) (hfin : AllFinite v = true) (nreuse : Nat) (wb : Stk) (hinv : StackInv wb) :
+    ∃ wb' stk', serializeN cfg v nreuse wb = .done Gen.kErrorNone wb' stk' ∧
+      Json.accepts wb'.buf = true ∧ Json.parse wb'.buf = .ok v ∧ dump cfg v = some wb'.buf ∧
+      ∀ v', Json.parse wb'.buf = .ok v' → ∀ n2 wb2, StackInv wb2 →
+        ∃ wb'' stk'', serializeN cfg v' n2 wb2 = .done Gen.kErrorNone wb'' stk'' ∧ wb''.buf = wb'.buf :=
+  C06_end_to_end cfg (C06_cfgOK_model cfg hw hw32 hf) (by rw [hf]; exact C06_ftoaModel_facts) v hwf hfin nreuse wb hinv
+
+/-! non-vacuity with doubles: `[0.1,-1.5e-7,1e+21,{"k":5e-324},123456.0,-0.0]` — general path, negative, exponent
+form, smallest subnormal, integer fast path, negative zero -/
+def exDbl : JVal :=
+  .arr [.num (.real 4591870180066957722), .num (.real 13728134904377344886), .num (.real 4921056587992461136),
+    .obj [([107], .num (.real 1))], .num (.real 4683220244930494464), .num (.real (2 ^ 63))]
+
+def exDblText : List Nat :=
+  [91, 48, 46, 49, 44, 45, 49, 46, 53, 101, 45, 55, 44, 49, 101, 43, 50, 49, 44, 123, 34, 107, 34, 58, 53, 101,
+   45, 51, 50, 52, 125, 44, 49, 50, 51, 52, 53, 54, 46, 48, 44, 45, 48, 46, 48, 93]
+
+example : WF exDbl = true ∧ AllFinite exDbl = true ∧ NoReals exDbl = false := by decide
+example : serialize {} exDbl (Stk.new 0) = .done 0 ⟨exDblText, 172, 176⟩ ⟨[], 256, 256⟩ := by decide +kernel
+example : dump {} exDbl = some exDblText := by decide +kernel
+example : render (ftoaText ftoaModel) exDbl = some exDblText ∧ Json.accepts exDblText = true := by decide +kernel
+example : Json.parse exDblText = .ok exDbl := by
+  obtain ⟨b, h1, h2⟩ := C06_roundtrip_model exDbl (by decide) (by decide)
+  have : render (ftoaText ftoaModel) exDbl = some exDblText := by decide +kernel
+  rw [this] at h1
+  cases h1
+  exact h2
+example : ftoaModel 4591870180066957722 = some ⟨[48, 46, 49], 10⟩ ∧
+    Number.scanNumber [48, 46, 49] 0 = .ok (.real 4591870180066957722) 3 := by decide +kernel
+/-- instance of the unconditional theorem on that document: SSE width, sanitizer tail, strict limit, any reuse
+count, any initial capacity -/
+example (nreuse cap0 : Nat) :
+    ∃ wb' stk', serializeN { W := 16, san := true, strict := true } exDbl nreuse (Stk.new cap0) =
+      .done Gen.kErrorNone wb' stk' ∧ Json.parse wb'.buf = .ok exDbl ∧
+      dump { W := 16, san := true, strict := true } exDbl = some wb'.buf := by
+  obtain ⟨wb', stk', h1, _, h3, h4, _⟩ := C06_end_to_end_model { W := 16, san := true, strict := true }
+    (by decide) (by decide) rfl exDbl (by decide) (by decide) nreuse (Stk.new cap0) (new_inv cap0)
+  exact ⟨wb', stk', h1, h3, h4⟩
 
 end Sonic.Props.C06
